@@ -39,9 +39,16 @@ func (o *OvsMap) UnmarshalJSON(b []byte) (err error) {
 	var oMap []interface{}
 	o.GoMap = make(map[interface{}]interface{})
 	if err := json.Unmarshal(b, &oMap); err == nil && len(oMap) > 1 {
-		innerSlice := oMap[1].([]interface{})
+		typeErr := &json.UnmarshalTypeError{Value: reflect.ValueOf(oMap).String(), Type: reflect.TypeOf(*o)}
+		innerSlice, ok := oMap[1].([]interface{})
+		if !ok {
+			return typeErr
+		}
 		for _, val := range innerSlice {
-			f := val.([]interface{})
+			f, ok := val.([]interface{})
+			if !ok || len(f) != 2 {
+				return typeErr
+			}
 			var k interface{}
 			switch f[0].(type) {
 			case []interface{}:
@@ -53,7 +60,14 @@ func (o *OvsMap) UnmarshalJSON(b []byte) (err error) {
 				if err != nil {
 					return err
 				}
+				if _, ok := goSlice.(UUID); !ok {
+					// only atoms (or UUIDs) can be map keys
+					return typeErr
+				}
 				k = goSlice
+			case map[string]interface{}:
+				// json objects are not valid atoms (and not hashable)
+				return typeErr
 			default:
 				k = f[0]
 			}
